@@ -71,6 +71,20 @@ def catalogue(big=False):
                                 call("R", binds={"xs": ref("A", "y")})],
                                {"o": ref("A", "y"), "n": ref("R", "n")})], "TOP", {"xs": [10, 11]}))
 
+    # 4a'. sibling calls (stages and sub-pipelines) of which one's name starts with the other's
+    P.append(program("prefix_names", [], [S_echo("STEP"), S_split("SPL")],
+                     [pipeline("SUB", "int x", "int y", [call("STEP", binds={"x": self_("x")})], {"y": ref("STEP", "y")}),
+                      pipeline("TOP", "int x, int[] xs", "int a, int b, int c, int d, int[] e, int[] f",
+                               [call("STEP", binds={"x": self_("x")}),
+                                call("STEP_TWO", "STEP", binds={"x": self_("x")}),
+                                call("STEP_TWO_B", "STEP", binds={"x": ref("STEP_TWO", "y")}),
+                                call("SUB", binds={"x": self_("x")}),
+                                call("SUBX", "SUB", binds={"x": self_("x")}),
+                                call("SPL", binds={"xs": self_("xs")}),
+                                call("SPL2", "SPL", binds={"xs": self_("xs")})],
+                               {"a": ref("STEP", "y"), "b": ref("STEP_TWO_B", "y"), "c": ref("SUB", "y"), "d": ref("SUBX", "y"),
+                                "e": ref("SPL", "ys"), "f": ref("SPL2", "ys")})], "TOP", {"x": 1, "xs": [1, 2]}))
+
     # 4b. a mapped stage (static and run-time forks) next to a stage that does not depend on it
     P.append(program("map_and_indep", [], [S_const("G", "int[] ys", {"ys": [4, 5, 6]}), S_echo("A"), S_echo("D"), S_echo("B")],
                      [pipeline("TOP", "int[] xs, int x", "int[] o, int[] p, int q",
